@@ -483,6 +483,19 @@ func (r *runner) apply(ev string) bool {
 				}
 			}
 		}
+	case "litter":
+		// litter:<node> leaves the temporary files of interrupted writes in the ltx directory of "a": two with adjacent
+		// names that sort after the newest transaction file (local commit / WriteLTXFileAt and stream apply) and one that sorts first.
+		if n := r.c.Nodes[f[1]]; n.Running() && n.DB("a") != nil {
+			dir := n.DB("a").LTXDir()
+			names := ltxNames(dir)
+			if len(names) > 0 {
+				newest := names[len(names)-1]
+				for _, nm := range []string{newest + ".tmp", newest + ".4037200794235010051.tmp", "0000000000000000-0000000000000000.ltx.tmp"} {
+					_ = os.WriteFile(filepath.Join(dir, nm), []byte("partial"), 0o666)
+				}
+			}
+		}
 	case "hwm":
 		// hwm:<node>:<rel> sets the high-water mark relative to the node's TXID: -1, 0, +1, or z for zero
 		if n := r.c.Nodes[f[1]]; n.Running() && n.DB("a") != nil {
@@ -967,6 +980,11 @@ func (r *runner) enabled() []string {
 	for _, n := range []string{"P", "R1"} {
 		if !r.c.Nodes[n].Running() {
 			continue
+		}
+		if has("litter") && r.c.Nodes[n].DB("a") != nil {
+			if _, err := os.Stat(filepath.Join(r.c.Nodes[n].DB("a").LTXDir(), "0000000000000000-0000000000000000.ltx.tmp")); err != nil {
+				out = append(out, "litter:"+n)
+			}
 		}
 		if has("age") {
 			// Ageing keeps modification times monotone in the TXID (as file creation order guarantees): the oldest file, or all files.
